@@ -378,6 +378,12 @@ def Base10Ok : Prop :=
   charsPerLimb 10 = 19 ∧ clz (bigBase 10) = 0
 instance : Decidable Base10Ok := by unfold Base10Ok; infer_instance
 
+/-- the power-of-two table entries fit a limb -/
+theorem bigBase_le_64 {b : Nat} (hb62 : b ≤ 62) (hok : Pow2Ok b) : bigBase b ≤ 64 := by
+  by_contra hcon
+  have : 2 ^ 64 ≤ 2 ^ bigBase b := Nat.pow_le_pow_right (by omega) (by omega)
+  rw [hok.1] at this; omega
+
 theorem NonPow2Ok.cpl_pos {b : Nat} (hb62 : b ≤ 62) (h : NonPow2Ok b) : 0 < charsPerLimb b := by
   rcases Nat.eq_zero_or_pos (charsPerLimb b) with h0 | h0
   · have := h.2.2.1; rw [h0] at this; simp [B_eq] at this; omega
